@@ -208,4 +208,223 @@ private theorem runSched_eq : ∀ (schedule : List Nat) (top : Node) (s : ExecSt
         rw [he]
         exact runSched_eq rest _ _ _ hs
 
+
+private theorem unwrapCb_shape : ∀ n : Node,
+    (∃ e, unwrapCb n = .failed e) ∨ (∃ x, unwrapCb n = .done (.val x)) ∨ (∃ g, unwrapCb n = .unwrap g)
+  | .val x => Or.inr (Or.inl ⟨x, rfl⟩)
+  | .failed e => Or.inl ⟨e, rfl⟩
+  | .done (.val x) => Or.inr (Or.inl ⟨x, rfl⟩)
+  | .done (.done r) => by simpa [unwrapCb] using unwrapCb_shape (.done r)
+  | .done (.failed e) => Or.inl ⟨e, by simp [unwrapCb]⟩
+  | .done (.task a b c d) => Or.inr (Or.inr ⟨.task a b c d, by simp [unwrapCb]⟩)
+  | .done (.chain a b) => Or.inr (Or.inr ⟨.chain a b, by simp [unwrapCb]⟩)
+  | .done (.unwrap a) => Or.inr (Or.inr ⟨.unwrap a, by simp [unwrapCb]⟩)
+  | .done (.gather a b c) => Or.inr (Or.inr ⟨.gather a b c, by simp [unwrapCb]⟩)
+  | .task a b c d => Or.inr (Or.inr ⟨.task a b c d, rfl⟩)
+  | .chain a b => Or.inr (Or.inr ⟨.chain a b, rfl⟩)
+  | .unwrap a => Or.inr (Or.inr ⟨.unwrap a, rfl⟩)
+  | .gather a b c => Or.inr (Or.inr ⟨.gather a b c, rfl⟩)
+
+private def resultOf (top : Node) (s : ExecSt) (schedule : List Nat) : Result :=
+  let r := AsyncExec.runSched top s [] schedule
+  ⟨outcomeOf r.top r.st, r.st.trace, r.sizes⟩
+
+private def resultOfL (top : Node) (s : ExecSt) (schedule : List Nat) : Result :=
+  let r := Loop.runSched top s [] schedule
+  ⟨outcomeOf r.top r.st, r.st.trace, r.sizes⟩
+
+private theorem resultOfL_eq (top : Node) (s : ExecSt) (schedule : List Nat) (h : TopShape top) :
+    resultOfL top s schedule = resultOf top s schedule := by
+  unfold resultOfL resultOf; rw [runSched_eq schedule top s [] h]
+
+private theorem resultOf_finished (top : Node) (s : ExecSt) (schedule : List Nat) (h : top.finished = true) :
+    resultOf top s schedule = ⟨outcomeOf top s, s.trace, []⟩ := by
+  unfold resultOf
+  cases schedule with
+  | nil => rfl
+  | cons i rest => simp [AsyncExec.runSched, h]
+
+/-- what a run makes of the flattened result of `_next` -/
+private def resultOfFlat (F : Node) (s1 : ExecSt) (schedule : List Nat) : Result :=
+  match F with
+  | .failed e => ⟨.failed e, s1.trace, []⟩
+  | .done (.val x) => ⟨outcomeOf (.val x) s1, s1.trace, []⟩
+  | F => resultOf (.chain F .onFinish) s1 schedule
+
+private def finishRec (r : Res Node) (s1 : ExecSt) (schedule : List Nat) : Result :=
+  match r with
+  | .exc e => ⟨.failed e, s1.trace, []⟩
+  | .ok n =>
+    match mapValue applyCont (unwrapValue n) .onFinish s1 with
+    | (.exc e, s) => ⟨.failed e, s.trace, []⟩
+    | (.ok top, s) => resultOf top s schedule
+
+private def finishLoop (r : Res Node) (s1 : ExecSt) (schedule : List Nat) : Result :=
+  match r with
+  | .exc e => ⟨.failed e, s1.trace, []⟩
+  | .ok n =>
+    match mapValue applyContL (unwrapValue n) .onFinish s1 with
+    | (.exc e, s) => ⟨.failed e, s.trace, []⟩
+    | (.ok top, s) => resultOfL top s schedule
+
+private theorem outcomeOf_done_val (x : Val) (s : ExecSt) : outcomeOf (.done (.val x)) s = outcomeOf (.val x) s := by
+  cases x <;> rfl
+
+/-- both `finish` functions on a flattened, non-plain result -/
+private theorem finish_flat (F : Node) (s1 : ExecSt) (schedule : List Nat)
+    (hF : (∃ e, F = .failed e) ∨ (∃ x, F = .done (.val x)) ∨ (∃ g, F = .unwrap g)) :
+    (match mapValue applyCont F .onFinish s1 with
+      | (.exc e, s) => (⟨.failed e, s.trace, []⟩ : Result)
+      | (.ok top, s) => resultOf top s schedule) = resultOfFlat F s1 schedule := by
+  rcases hF with ⟨e, rfl⟩ | ⟨x, rfl⟩ | ⟨g, rfl⟩
+  · simp only [mapValue, Node.finished, chainOnFinish, applyCont, applySimple, resultOfFlat, if_true]
+    rw [resultOf_finished _ _ _ rfl]; rfl
+  · simp only [mapValue, Node.finished, chainOnFinish, applyCont, applySimple, Node.plain, resultOfFlat, if_true]
+    rw [resultOf_finished _ _ _ rfl, outcomeOf_done_val]
+  · simp [mapValue, Node.finished, resultOfFlat]
+
+private theorem finishRec_flat (r : Res Node) (s1 : ExecSt) (schedule : List Nat) :
+    finishRec r s1 schedule = resultOfFlat (flat r) s1 schedule := by
+  cases r with
+  | exc e => rfl
+  | ok n =>
+    cases n with
+    | val x =>
+      simp only [finishRec, unwrapValue, mapValue, applyCont, applySimple, flat, unwrapCb, resultOfFlat]
+      rw [resultOf_finished _ _ _ rfl]
+    | done a => unfold finishRec flat; simp only [unwrapValue]; exact finish_flat (unwrapCb (.done a)) s1 schedule (unwrapCb_shape (.done a))
+    | failed a => unfold finishRec flat; simp only [unwrapValue]; exact finish_flat (unwrapCb (.failed a)) s1 schedule (unwrapCb_shape (.failed a))
+    | task a b c d => unfold finishRec flat; simp only [unwrapValue]; exact finish_flat (unwrapCb (.task a b c d)) s1 schedule (unwrapCb_shape (.task a b c d))
+    | chain a b => unfold finishRec flat; simp only [unwrapValue]; exact finish_flat (unwrapCb (.chain a b)) s1 schedule (unwrapCb_shape (.chain a b))
+    | unwrap a => unfold finishRec flat; simp only [unwrapValue]; exact finish_flat (unwrapCb (.unwrap a)) s1 schedule (unwrapCb_shape (.unwrap a))
+    | gather a b c => unfold finishRec flat; simp only [unwrapValue]; exact finish_flat (unwrapCb (.gather a b c)) s1 schedule (unwrapCb_shape (.gather a b c))
+
+
+private theorem mapValue_top (F : Node) (s1 : ExecSt) (hS : MidShape F)
+    (hF : (∃ e, F = .failed e) ∨ (∃ x, F = .done (.val x)) ∨ (∃ g, F = .unwrap g)) :
+    ∃ top s, mapValue applyCont F .onFinish s1 = (.ok top, s) ∧ TopShape top := by
+  rcases hF with ⟨e, rfl⟩ | ⟨x, rfl⟩ | ⟨g, rfl⟩
+  · exact ⟨.failed e, s1, by simp [mapValue, Node.finished, chainOnFinish, applyCont, applySimple], Or.inl (by simp [SFree])⟩
+  · exact ⟨.done (.val x), s1, by simp [mapValue, Node.finished, chainOnFinish, applyCont, applySimple, Node.plain],
+      Or.inl (by simp [SFree])⟩
+  · refine ⟨.chain (.unwrap g) .onFinish, s1, by simp [mapValue, Node.finished], ?_⟩
+    cases hS with
+    | inl h => exact Or.inl (by simpa [SFree, sfreeK] using h)
+    | inr h =>
+      obtain ⟨f, p, key, res, args, heq, hf⟩ := h
+      exact Or.inr ⟨f, p, key, res, args, by rw [heq], hf⟩
+
+private theorem finishLoop_flat (r : Res Node) (s1 : ExecSt) (schedule : List Nat) (hS : MidShape (flat r)) :
+    finishLoop r s1 schedule = resultOfFlat (flat r) s1 schedule := by
+  rw [← finishRec_flat]
+  cases r with
+  | exc e => rfl
+  | ok n =>
+    unfold finishLoop finishRec
+    simp only [mapValue_congr _ .onFinish rfl]
+    cases n with
+    | val x =>
+      simp only [unwrapValue, mapValue, applyCont, applySimple]
+      exact resultOfL_eq _ _ _ (Or.inl (by simp [SFree]))
+    | done a =>
+      obtain ⟨top, s, hm, hT⟩ := mapValue_top (unwrapCb (.done a)) s1 hS (unwrapCb_shape (.done a))
+      simp only [unwrapValue, hm]; exact resultOfL_eq _ _ _ hT
+    | failed a =>
+      obtain ⟨top, s, hm, hT⟩ := mapValue_top (unwrapCb (.failed a)) s1 hS (unwrapCb_shape (.failed a))
+      simp only [unwrapValue, hm]; exact resultOfL_eq _ _ _ hT
+    | task a b c d =>
+      obtain ⟨top, s, hm, hT⟩ := mapValue_top (unwrapCb (.task a b c d)) s1 hS (unwrapCb_shape (.task a b c d))
+      simp only [unwrapValue, hm]; exact resultOfL_eq _ _ _ hT
+    | chain a b =>
+      obtain ⟨top, s, hm, hT⟩ := mapValue_top (unwrapCb (.chain a b)) s1 hS (unwrapCb_shape (.chain a b))
+      simp only [unwrapValue, hm]; exact resultOfL_eq _ _ _ hT
+    | unwrap a =>
+      obtain ⟨top, s, hm, hT⟩ := mapValue_top (unwrapCb (.unwrap a)) s1 hS (unwrapCb_shape (.unwrap a))
+      simp only [unwrapValue, hm]; exact resultOfL_eq _ _ _ hT
+    | gather a b c =>
+      obtain ⟨top, s, hm, hT⟩ := mapValue_top (unwrapCb (.gather a b c)) s1 hS (unwrapCb_shape (.gather a b c))
+      simp only [unwrapValue, hm]; exact resultOfL_eq _ _ _ hT
+
+private theorem executeFields_sfree (path : Path) (fields : Flds) (s : ExecSt) : ResSFree (executeFields path fields s).1 = true := by
+  have h := resolveFields_sfree fields path s
+  unfold executeFields
+  cases hr : resolveFields path fields s with
+  | mk r s1 =>
+    rw [hr] at h
+    cases r with
+    | exc e => simp [ResSFree]
+    | ok ns => exact mapValue_sfree applySimple _ (applySimple_sfree _) rfl _ s1 (gatherValues_sfree ns (by simpa [ResSFrees] using h))
+
+private theorem flat_sfree (r : Res Node) (h : ResSFree r = true) : SFree (flat r) = true := by
+  cases r with
+  | exc e => simp [flat, SFree]
+  | ok n => exact unwrapCb_sfree n (by simpa [ResSFree] using h)
+
+private theorem loop_run_eq_finish (r : Res Node × ExecSt) (schedule : List Nat) :
+    (match (match r with
+        | (.exc e, s1) => ((.exc e, s1) : Res Node × ExecSt)
+        | (.ok n, s1) => mapValue applyContL (unwrapValue n) .onFinish s1) with
+      | (.exc e, s) => (⟨.failed e, s.trace, []⟩ : Result)
+      | (.ok top, s) =>
+        let r := Loop.runSched top s [] schedule
+        ⟨outcomeOf r.top r.st, r.st.trace, r.sizes⟩) = finishLoop r.1 r.2 schedule := by
+  obtain ⟨r, s1⟩ := r
+  cases r with
+  | exc e => rfl
+  | ok n =>
+    simp only [finishLoop]
+    cases mapValue applyContL (unwrapValue n) .onFinish s1 with
+    | mk r2 s2 => cases r2 <;> rfl
+
+private theorem rec_run_eq_finish (r : Res Node × ExecSt) (schedule : List Nat) :
+    (match (match r with
+        | (.exc e, s1) => ((.exc e, s1) : Res Node × ExecSt)
+        | (.ok n, s1) => mapValue applyCont (unwrapValue n) .onFinish s1) with
+      | (.exc e, s) => (⟨.failed e, s.trace, []⟩ : Result)
+      | (.ok top, s) =>
+        let r := AsyncExec.runSched top s [] schedule
+        ⟨outcomeOf r.top r.st, r.st.trace, r.sizes⟩) = finishRec r.1 r.2 schedule := by
+  obtain ⟨r, s1⟩ := r
+  cases r with
+  | exc e => rfl
+  | ok n =>
+    simp only [finishRec]
+    cases mapValue applyCont (unwrapValue n) .onFinish s1 with
+    | mk r2 s2 => cases r2 <;> rfl
+
+/-- **serial_loop_eq_recursive_run.** For EVERY operation (query or mutation) and EVERY completion order, the executor with
+    today's LOOP form of `execute_fields_serially` and the executor with the RECURSIVE form produce the same result:
+    same outcome (data and error list, in the same order), same trace of resolver call/done events, same queue lengths
+    at every completion. Every theorem proved about `runAsync` (`serial_order`, `serial_queue_invariant`,
+    `async_eq_blocking`, `always_terminates`, …) therefore holds of the loop form. -/
+theorem serial_loop_eq_recursive_run (op : Op) (schedule : List Nat) :
+    Loop.runAsync op schedule = AsyncExec.runAsync op schedule := by
+  obtain ⟨kind, fields⟩ := op
+  cases kind with
+  | query =>
+    have hS : MidShape (flat (executeFields [] fields {}).1) := Or.inl (flat_sfree _ (executeFields_sfree [] fields {}))
+    have h1 := loop_run_eq_finish (executeFields [] fields {}) schedule
+    have h2 := rec_run_eq_finish (executeFields [] fields {}) schedule
+    have e1 : Loop.runAsync ⟨.query, fields⟩ schedule = finishLoop (executeFields [] fields {}).1 (executeFields [] fields {}).2 schedule := h1
+    have e2 : AsyncExec.runAsync ⟨.query, fields⟩ schedule = finishRec (executeFields [] fields {}).1 (executeFields [] fields {}).2 schedule := h2
+    rw [e1, e2, finishLoop_flat _ _ _ hS, finishRec_flat]
+  | mutation =>
+    have hA := serial_loop_eq_recursive_call [] fields [] {}
+    have hS : MidShape (flat (serialLoop [] [] fields {}).1) := by rw [hA.1]; exact serialNext_shape [] fields [] {}
+    have h1 := loop_run_eq_finish (serialLoop [] [] fields {}) schedule
+    have h2 := rec_run_eq_finish (serialNext [] [] fields {}) schedule
+    have e1 : Loop.runAsync ⟨.mutation, fields⟩ schedule = finishLoop (serialLoop [] [] fields {}).1 (serialLoop [] [] fields {}).2 schedule := h1
+    have e2 : AsyncExec.runAsync ⟨.mutation, fields⟩ schedule = finishRec (serialNext [] [] fields {}).1 (serialNext [] [] fields {}).2 schedule := h2
+    rw [e1, e2, finishLoop_flat _ _ _ hS, finishRec_flat, hA.1, hA.2]
+
+/-- non-vacuity: a mutation whose first field arrives as an already FINISHED Future (`ready`) followed by a synchronous
+    field that raises — the corner where the two forms differ as functions (the recursion stores the exception in the
+    chain's Future, the loop lets it propagate out of `execute`): same `Result`. -/
+example : Loop.runAsync ⟨.mutation, .cons "a" .ready (.ok (.leaf 1)) (.cons "b" .sync .exc .nil)⟩ []
+    = AsyncExec.runAsync ⟨.mutation, .cons "a" .ready (.ok (.leaf 1)) (.cons "b" .sync .exc .nil)⟩ [] :=
+  serial_loop_eq_recursive_run _ _
+example : (match (Loop.serialLoop [] [] (.cons "a" .ready (.ok (.leaf 1)) (.cons "b" .sync .exc .nil)) {}).1,
+                 (serialNext [] [] (.cons "a" .ready (.ok (.leaf 1)) (.cons "b" .sync .exc .nil)) {}).1 with
+    | .exc .boom, .ok (.failed .boom) => true | _, _ => false) = true := by rfl
+
 end PyGql.Props.C09
